@@ -21,9 +21,12 @@ from vf import par
 
 NEEDS_SERVICES = False
 
-UNITS = (1, 2, 3, 5)
-COUNT_LIMITS = (1, 2, 3, 4, 8)
-BOUNDS = {'quick': (1, 4), 'thorough': (2, 5)}  # (max job groups, max jobs)
+# padding lengths -> serialised sizes BASE+u: tiny, tiny+1 (off-by-one neighbour), medium, large.  Sizes of very different magnitude
+# are essential: with near-equal sizes a byte total carried over from a previous bunch can never be smaller than the real one.
+UNITS_BY_TIER = {'quick': (1, 19, 56), 'thorough': (1, 2, 19, 56)}
+UNITS = UNITS_BY_TIER['thorough']
+COUNT_LIMITS_BY_TIER = {'quick': (1, 2, 3, 8), 'thorough': (1, 2, 3, 4, 8)}
+BOUNDS = {'quick': (2, 4), 'thorough': (2, 5)}  # (max job groups, max jobs)
 
 
 def _spec(kind, i, pad):
@@ -143,7 +146,7 @@ class Acc:
 
 
 def _shard(arg):
-    gsizes, jsizes = arg
+    gsizes, jsizes, count_limits = arg
     groups, jobs = make_specs(gsizes, jsizes)
     total = sum(BASE + u for u in gsizes + jsizes)
     acc = Acc()
@@ -151,7 +154,7 @@ def _shard(arg):
     want = [('job_group', g) for g in groups] + [('job', j) for j in jobs]
     pre = (want, [len(json.dumps(s, separators=(',', ':')).encode()) for _, s in want])
     for max_bytes in range(1, total + 2):
-        for max_size in COUNT_LIMITS:
+        for max_size in count_limits:
             bad, facts = judge(groups, jobs, max_bytes, max_size, pre)
             acc.inc('cases')
             if facts['refused']:
@@ -219,11 +222,12 @@ def check(tier, seed, procs):
     _selfcheck()
     G, J = BOUNDS[tier]
     items = []
+    units, count_limits = UNITS_BY_TIER[tier], COUNT_LIMITS_BY_TIER[tier]
     for g in range(G + 1):
-        for gs in itertools.product(UNITS, repeat=g):
+        for gs in itertools.product(units, repeat=g):
             for j in range(J + 1):
-                for js in itertools.product(UNITS, repeat=j):
-                    items.append((gs, js))
+                for js in itertools.product(units, repeat=j):
+                    items.append((gs, js, count_limits))
     items.sort(key=lambda it: (len(it[0]) + len(it[1]), it))
     order = par.rotate(items, seed)
     rows = par.pmap(_shard, order, procs)
@@ -246,8 +250,8 @@ def check(tier, seed, procs):
                 'non-trivial = every spec fits and the real function returned at least two bunches, i.e. the packing loop had to close a bunch (counted)',
         'samples': samples,
         'exhaustive': True,
-        'bounds': f'<= {G} job-group specs and <= {J} job specs, serialised sizes {[BASE + u for u in UNITS]} bytes; max_bunch_bytesize 1 .. total bytes + 1; '
-                  f'max_bunch_size in {list(COUNT_LIMITS)}',
+        'bounds': f'<= {G} job-group specs and <= {J} job specs, serialised sizes {[BASE + u for u in units]} bytes (tiny / medium / large, free per position); '
+                  f'max_bunch_bytesize 1 .. total bytes + 1 (every integer); max_bunch_size in {list(count_limits)}',
         'spec_lists': len(items),
         'refused_because_a_spec_does_not_fit': c.get('refused', 0),
         'bunched': c.get('bunched', 0),
